@@ -16,6 +16,19 @@
 // executed in a forked child first, so that a sanitizer abort becomes a reported finding instead of ending the run
 // (VERIF_C19_NOPROBE=1 executes them in-process).
 //
+// Failure classes (named after what was observed; the attribution part is derived at run time, not assumed):
+//   shift-left-of-zero-crashes / shift-right-of-zero-crashes   the probing child died (sanitizer report or signal)
+//   stale-words-after-<op>      a value became wrong and non-zero words above Index() had been left behind by <op>
+//   zero-top-word-after-<op>    predicates / results disagree with the value and Index() > 0 with a zero top word since <op>
+//   find-first-bit-wrong, find-last-bit-wrong, remainder-wrong, comparison-wrong, conversion-wrong, predicate-wrong,
+//   value-wrong-after-<op>      everything else
+//   divide64-odd-divisor-remainder-carry   64-bit words, odd divisor, (r*2^64 mod d) + (word mod d) >= 2^64 in a step
+//   index-out-of-range, geometry
+// Not covered on purpose: SetIndex() and writes through the mutable Storage() (raw access that can break any invariant),
+// signed scalar operands (the type models natural numbers; a negative operand never terminates the word loop), results
+// that do not fit Width_T bits (wrap-around of Add/Subtract/shifts is outside the property), bit scans of zero
+// (Platform::FindFirstBit/FindLastBit document 'value should be bigger than zero'), division by zero.
+//
 // Enumeration modes: dw8 (DoubleSize<.., 8> Multiply: all 2^16 pairs; Divide: all (high < divisor, low, divisor != 0)),
 // dw16 / dw32 / dw64 (boundary-biased operand lists crossed with each other against unsigned __int128).
 #include "common/pbt.hpp"
@@ -840,7 +853,7 @@ struct Decoder {
         s.op.reg = uint8_t(reg);
         s.op.ty  = uint8_t(ty);
         s.op.n   = n;
-        s.op.alt = alt;
+        s.op.alt = alt && ty == word_ty(); // Add(word) exists for the word's own type only
         m[reg]   = sum;
     }
     void do_sub(Step &s, int reg, int ty, uint64_t n, bool alt) {
@@ -864,7 +877,7 @@ struct Decoder {
         s.op.reg = uint8_t(reg);
         s.op.ty  = uint8_t(ty);
         s.op.n   = n;
-        s.op.alt = alt;
+        s.op.alt = alt && ty == word_ty();
         m[reg].sub(Nat::u64(n));
     }
 
@@ -1363,7 +1376,10 @@ void run_seq(const Case &c, pbt::Ctx &ctx) {
 
     // -- pass 2: the library --
     static const bool                 no_probe = getenv("VERIF_C19_NOPROBE") != nullptr;
-    static std::set<std::string>      probe_survived; // (word, width, op) combinations whose probe came back clean
+    // Probe results per (word, width, operation, amount, state flags). A clean zero object (all words zero, Index 0) is
+    // one single state, so a crash observed for it once is reported for the identical operation without forking again.
+    static std::set<std::string>              probe_survived;
+    static std::map<std::string, std::string> probe_crashed;
     Decoder                           d(c, p);
     Step                              s;
     unsigned                          step_no = 0;
@@ -1389,12 +1405,24 @@ void run_seq(const Case &c, pbt::Ctx &ctx) {
                                     (stale_before.set ? "/stale" : "") + (unnorm_before.set ? "/unnorm" : "");
             if (probe_survived.count(key) == 0) {
                 std::string how;
-                if (!survives(
+                bool        ok        = true;
+                const bool  clean     = !stale_before.set && !unnorm_before.set;
+                auto        crashed_b = probe_crashed.find(key);
+                if (clean && crashed_b != probe_crashed.end()) {
+                    ok  = false;
+                    how = crashed_b->second;
+                } else {
+                    ok = survives(
                         [&]() {
                             Ret r;
                             dev->apply(s.op, r);
                         },
-                        how)) {
+                        how);
+                    if (!ok && clean) {
+                        probe_crashed[key] = how;
+                    }
+                }
+                if (!ok) {
                     ctx.deviation(std::string(s.op.k == K::Shl ? "shift-left" : "shift-right") + "-of-zero-crashes",
                                   where(s) + ": shifting a zero value (storage " + std::to_string(p.max_index + 1) + " words of " + std::to_string(p.tw) +
                                       " bits) ended the probing child process with " + how);
@@ -1536,8 +1564,9 @@ std::vector<uint64_t> dw_values(unsigned tw) {
         v.insert(b & mk);
         v.insert((b - 1) & mk);
         v.insert((b + 1) & mk);
-        v.insert((mk - b) & mk);
-        v.insert((mk - b + 1) & mk);
+        if (k % 4 == 0 || k + 3 >= tw) {
+            v.insert((mk - b) & mk);
+        }
     }
     for (uint64_t x : {0ULL, 1ULL, 2ULL, 3ULL, 5ULL, 7ULL, 9ULL, 10ULL, 100ULL, 255ULL, 256ULL, 1000ULL, 10000ULL, 65535ULL, 65536ULL, 1000000000ULL, 4294967295ULL,
                        4294967296ULL, 4294967297ULL, 10000000000000000000ULL, 7450580596923828125ULL, 1220703125ULL, 15625ULL, 0xAAAAAAAAAAAAAAAAULL,
@@ -1546,7 +1575,7 @@ std::vector<uint64_t> dw_values(unsigned tw) {
         v.insert(x & mk);
     }
     uint64_t x = 0x243F6A8885A308D3ULL; // fixed stream (digits of pi), no clock, no rand()
-    for (int i = 0; i < 40; ++i) {
+    for (int i = 0; i < 20; ++i) {
         x ^= x << 13;
         x ^= x >> 7;
         x ^= x << 17;
